@@ -30,14 +30,10 @@ Definition raw_of_mntm (Q I T : list nat) (m : mntm) : rtm :=
     (map (fun qr => (fst qr, map (fun e => (fst e, map raw_alt (snd e))) (snd qr))) (mt_trans m))
     (mt_init m) (mt_blank m) (mt_finals m).
 
-(* the two side conditions of the multitape theorems that MNTM.validate does not / cannot
-   establish: every listed entry has at least one alternative (second half of valid_mntm;
-   the constructor accepts an empty set of alternatives), and every key has one component per tape
-   (checked by _validate_tapes_consistency, not part of valid_tapes) *)
-Definition alts_nonempty (m : mntm) : bool :=
-  forallb (fun qr => forallb (fun e => negb (match snd e with [] => true | _ => false end)) (snd qr))
-          (mt_trans m).
-
+(* the side condition of the multitape embedding that valid_mntm / valid_tapes do not mention: every key
+   has one component per tape (checked by _validate_tapes_consistency).  (An entry with an empty list of
+   alternatives is accepted by the constructor and - since the repair of read_input_stepwise - is no longer
+   excluded by valid_mntm either.) *)
 Definition keys_len_ok (m : mntm) : bool :=
   forallb (fun qr : nat * list (list nat * list malt) =>
              forallb (fun e : list nat * list malt => Nat.eqb (length (fst e)) (mt_n m)) (snd qr))
